@@ -1,15 +1,20 @@
 package main
 
 // chain mode: the same kind of history, but through REAL transactions to the Staker contract on a real chain
-// (internal/sim: genesis with HAYABUSA at block 0 and genesis stakers, real packer.Schedule / flow.Adopt / Pack, blocks
-// stored in a real repository; PoA until the first epoch boundary, then the PoA -> PoS transition).  Here the Solidity
-// wrapper staker.sol itself moves the VET; what is observed is
-//   - whether each transaction reverted (receipt),
-//   - the VET balance change of the sender over the block (deposit, or the amount a withdraw paid out),
-//   - the contract's VET balance, effectiveVET and all getters on the state of the new block,
-//   - which leaders the scheduler reported online / offline (derived from the offline blocks).
-// The events of one block are: Block n (SyncPOS), SetOnline*, at most one operation; the post-state is attached to the
-// last of them.  The trace is validated by the same Trace_Staker.tla (revert reasons are not visible in receipts).
+// (internal/sim: genesis with HAYABUSA at block 0; real packer.Schedule / flow.Adopt / Pack by the scheduled proposer, every
+// block then imported by a LONG-LIVED node stack - real consensus.Process with its leader-group cache, real bft engine).
+// Here the Solidity wrapper staker.sol and the native layer builtin/staker_native.go are the code under test too:
+//   - several staker transactions per block, transactions with two clauses (a reverting later clause undoes the first),
+//   - senders are externally owned accounts AND contracts (proxy.go): an endorser / delegator contract that reverts on
+//     receiving VET ("Transfer failed") or re-enters withdrawStake from inside the payment (withdraw twice),
+//   - the pause switches (params staker-switches), addDelegation & co. from a sender that is not the delegator contract,
+//     stakes that are empty or not a whole number of VET (checkStake), the transition-period authority rule of
+//     native_addValidation while PoS is not active.
+// Observed: whether each transaction reverted (receipt), the VET paid to the sender by each clause (transfer logs), the id of
+// a new delegation (event log), the contract's VET balance, effectiveVET and all getters on the state of the new block,
+// which leaders the scheduler reported online / offline, and whether the long-lived consensus accepted the packer's block.
+// Events of one block: Block n (SyncPOS), SetOnline*, then SetSwitches / ChainTx in transaction order; the post-state is
+// attached to the last of them.  Validated by the same Trace_Staker.tla (revert reasons are not visible in receipts).
 
 import (
 	"fmt"
@@ -29,16 +34,44 @@ import (
 	"verifharness/internal/trace"
 )
 
+// sender is who the Staker contract sees as msg.sender
+type sender struct {
+	name  string       // name in the trace (endorser name space)
+	addr  thor.Address // msg.sender at the Staker contract
+	key   int          // dev account that signs the transaction
+	proxy bool         // addr is a proxy contract: the clause goes to the proxy, which forwards it
+}
+
+type clause struct {
+	ev    map[string]any // the operation as the specification sees it
+	data  []byte         // call data for the Staker contract
+	value *big.Int       // wei attached
+	pays  bool           // withdraw
+	isDel bool           // addDelegation
+}
+
+type chainTx struct {
+	from    sender
+	clauses []clause
+	t       *tx.Transaction
+	sw      int64 // >= 0: params.set(staker-switches, sw) by the executor instead of staker clauses
+	silent  bool  // set-up / proxy mode transactions: no event of their own
+}
+
 type chainWorld struct {
 	*world
-	net     *sim.Net
-	parent  *block.Block
-	nVal    int // genesis validators = devs[0..nVal)
-	nAcct   int // accounts usable as validators / endorsers
-	deleg   int // index of the account playing the delegator contract
-	nonce   uint64
-	tag     byte
-	offPrev map[thor.Address]int64
+	net      *sim.Net
+	parent   *block.Block
+	nVal     int // genesis validators = devs[0..nVal)
+	nAcct    int // accounts usable as validators / endorsers
+	nonce    uint64
+	tag      byte
+	offPrev  map[thor.Address]int64
+	eoas     []sender
+	proxies  []sender // c1, c2: contract endorsers
+	deleg    sender   // the delegator contract (a proxy)
+	switches int64
+	delEvent thor.Bytes32
 }
 
 func (c *chainWorld) stateOf(b *block.Block) *state.State {
@@ -47,40 +80,43 @@ func (c *chainWorld) stateOf(b *block.Block) *state.State {
 	return c.net.God.Stater.NewState(sum.Root())
 }
 
-func (c *chainWorld) mkTx(from int, value uint64, method string, args ...any) *tx.Transaction {
+func (c *chainWorld) stakerData(method string, args ...any) []byte {
 	m, ok := builtin.Staker.ABI.MethodByName(method)
 	if !ok {
 		fail("staker ABI has no method", method)
 	}
 	data, err := m.EncodeInput(args...)
 	must(err)
-	to := builtin.Staker.Address
-	cl := tx.NewClause(&to).WithData(data)
-	if value > 0 {
-		cl = cl.WithValue(c.wei(value))
-	}
+	return data
+}
+
+func (c *chainWorld) sign(key int, clauses ...*tx.Clause) *tx.Transaction {
 	c.nonce++
 	b := tx.NewBuilder(tx.TypeDynamicFee).ChainTag(c.tag).BlockRef(tx.NewBlockRef(c.parent.Header().Number())).Expiration(1000).
-		Gas(3_000_000).Nonce(c.nonce).Clause(cl).
+		Gas(uint64(3_000_000 * len(clauses))).Nonce(c.nonce).
 		MaxFeePerGas(new(big.Int).Mul(big.NewInt(thor.InitialBaseFee), big.NewInt(100))).MaxPriorityFeePerGas(big.NewInt(1000))
-	return tx.MustSign(b.Build(), c.net.Devs[from].PrivateKey)
-}
-
-func (c *chainWorld) vetOf(st *state.State, acct int) *big.Int {
-	b, err := st.GetBalance(c.net.Devs[acct].Address)
-	must(err)
-	return b
-}
-
-// mint produces the next block (by some validator that is entitled to) with at most one transaction, imports nothing
-// anywhere else: God's repository is the chain.
-func (c *chainWorld) mint(t *tx.Transaction) *block.Block {
-	var txs []*tx.Transaction
-	if t != nil {
-		txs = append(txs, t)
+	for _, cl := range clauses {
+		b.Clause(cl)
 	}
-	// the natural proposer is the one with the earliest slot; now and then the runner-up takes over (the skipped
-	// leader is reported offline by the real scheduler)
+	return tx.MustSign(b.Build(), c.net.Devs[key].PrivateKey)
+}
+
+// build turns the clauses into a signed transaction from the given sender (through its proxy if it is a contract)
+func (c *chainWorld) build(from sender, cls []clause) *chainTx {
+	var tcs []*tx.Clause
+	for _, cl := range cls {
+		to, data := builtin.Staker.Address, cl.data
+		if from.proxy {
+			to, data = from.addr, proxyForward(cl.data)
+		}
+		tcs = append(tcs, tx.NewClause(&to).WithData(data).WithValue(cl.value))
+	}
+	return &chainTx{from: from, clauses: cls, t: c.sign(from.key, tcs...), sw: -1}
+}
+
+// mint produces the next block with the given transactions, by the scheduled proposer (now and then the runner-up: the
+// skipped leader is reported offline by the real scheduler).  God's repository is the chain.
+func (c *chainWorld) mint(txs []*tx.Transaction) *block.Block {
 	type cand struct {
 		who  int
 		when uint64
@@ -115,25 +151,24 @@ func (c *chainWorld) mint(t *tx.Transaction) *block.Block {
 	return nil
 }
 
-type chainOp struct {
-	ev    trace.Ev
-	from  int
-	t     *tx.Transaction
-	pays  bool   // withdraw: amount = VET received
-	value uint64 // deposit in units
-	isDel bool
-}
-
-func (c *chainWorld) acctOf(a thor.Address) int {
-	for i := 0; i < c.nAcct; i++ {
-		if c.net.Devs[i].Address == a {
-			return i
+func (c *chainWorld) senderOf(a thor.Address) (sender, bool) {
+	for _, s := range append(append([]sender{}, c.eoas...), append(c.proxies, c.deleg)...) {
+		if s.addr == a {
+			return s, true
 		}
 	}
-	return -1
+	return sender{}, false
 }
 
-func (c *chainWorld) randomOp(posActive bool) *chainOp {
+func (c *chainWorld) anySender() sender {
+	if c.chance(25) {
+		return c.proxies[c.pick(len(c.proxies))]
+	}
+	return c.eoas[c.pick(c.nAcct)]
+}
+
+// randomClause picks one staker operation and its natural sender
+func (c *chainWorld) randomClause() (clause, sender) {
 	w := c.world
 	small := w.p.MaxStake/24 + 1
 	s := w.stk()
@@ -145,155 +180,294 @@ func (c *chainWorld) randomOp(posActive bool) *chainOp {
 		}
 		return w.vals[w.pick(len(w.vals))]
 	}
-	endOf := func(a thor.Address) int {
+	endorserOf := func(a thor.Address) sender {
 		if v, err := s.GetValidation(a); err == nil && v != nil && w.chance(92) {
-			if i := c.acctOf(v.Endorser); i >= 0 {
-				return i
+			if x, ok := c.senderOf(v.Endorser); ok {
+				return x
 			}
 		}
-		return w.pick(c.nAcct)
+		return c.anySender()
+	}
+	// stake amount in wei with the occasional empty / fractional value (checkStake)
+	stakeWei := func(units uint64, ev map[string]any) *big.Int {
+		ev["frac"] = false
+		switch x := w.pick(100); {
+		case x < 3:
+			ev["s"] = 0
+			return new(big.Int)
+		case x < 7:
+			ev["frac"] = true
+			return new(big.Int).Add(c.wei(units), big.NewInt(500_000_000_000_000_000))
+		}
+		return c.wei(units)
+	}
+	delegSender := func() sender {
+		if w.chance(8) {
+			return c.eoas[c.pick(len(c.eoas))] // not the delegator contract
+		}
+		return c.deleg
 	}
 	switch x := w.pick(100); {
 	case x < 16:
-		if !posActive {
-			return nil // native_addValidation additionally requires an authority while PoS is not active (not modelled)
-		}
 		a := pickVal(validation.StatusUnknown)
-		e := w.pick(c.nAcct)
 		p := w.periods()[w.pick(3)]
 		stake := w.p.MinStake + uint64(w.rng.Int63n(int64(2*small)+1))
 		if w.chance(6) {
 			stake = w.p.MinStake - 1
 		}
-		return &chainOp{ev: trace.Ev{"e": "AddValidation", "a": w.name(a), "end": w.ename(c.net.Devs[e].Address), "p": p, "s": stake},
-			from: e, value: stake, t: c.mkTx(e, stake, "addValidation", a, p)}
+		auth := zeroName
+		if listed, endorsor, _, _, err := builtin.Authority.Native(w.st).Get(a); err == nil && listed {
+			auth = w.ename(endorsor)
+		}
+		ev := map[string]any{"e": "AddValidation", "a": w.name(a), "p": p, "s": stake, "auth": auth}
+		return clause{ev: ev, data: c.stakerData("addValidation", a, p), value: stakeWei(stake, ev)}, c.anySender()
 	case x < 28:
 		a := pickVal(validation.StatusActive)
-		e := endOf(a)
 		amt := 1 + uint64(w.rng.Int63n(int64(2*small)))
-		return &chainOp{ev: trace.Ev{"e": "IncreaseStake", "a": w.name(a), "end": w.ename(c.net.Devs[e].Address), "s": amt},
-			from: e, value: amt, t: c.mkTx(e, amt, "increaseStake", a)}
+		ev := map[string]any{"e": "IncreaseStake", "a": w.name(a), "s": amt}
+		return clause{ev: ev, data: c.stakerData("increaseStake", a), value: stakeWei(amt, ev)}, endorserOf(a)
 	case x < 38:
 		a := pickVal(validation.StatusActive)
-		e := endOf(a)
 		amt := 1 + uint64(w.rng.Int63n(int64(small)))
-		return &chainOp{ev: trace.Ev{"e": "DecreaseStake", "a": w.name(a), "end": w.ename(c.net.Devs[e].Address), "s": amt},
-			from: e, t: c.mkTx(e, 0, "decreaseStake", a, c.wei(amt))}
+		ev := map[string]any{"e": "DecreaseStake", "a": w.name(a), "s": amt}
+		return clause{ev: ev, data: c.stakerData("decreaseStake", a, stakeWei(amt, ev)), value: new(big.Int)}, endorserOf(a)
 	case x < 43:
 		a := pickVal(validation.StatusActive)
 		if n, _ := s.LeaderGroupSize(); n <= 2 {
-			return nil // keep the chain producing blocks
+			a = thor.Address{} // keep the chain producing blocks: this one reverts
 		}
-		e := endOf(a)
-		return &chainOp{ev: trace.Ev{"e": "SignalExit", "a": w.name(a), "end": w.ename(c.net.Devs[e].Address)},
-			from: e, t: c.mkTx(e, 0, "signalExit", a)}
+		return clause{ev: map[string]any{"e": "SignalExit", "a": w.name(a)}, data: c.stakerData("signalExit", a), value: new(big.Int)}, endorserOf(a)
 	case x < 60:
 		a := pickVal(validation.StatusExit, validation.StatusActive, validation.StatusQueued)
-		e := endOf(a)
-		return &chainOp{ev: trace.Ev{"e": "WithdrawStake", "a": w.name(a), "end": w.ename(c.net.Devs[e].Address)},
-			from: e, pays: true, t: c.mkTx(e, 0, "withdrawStake", a)}
+		return clause{ev: map[string]any{"e": "WithdrawStake", "a": w.name(a)}, data: c.stakerData("withdrawStake", a), value: new(big.Int), pays: true}, endorserOf(a)
 	case x < 64:
 		a := pickVal(validation.StatusActive, validation.StatusQueued)
-		e := endOf(a)
-		b := c.net.Devs[w.pick(c.nAcct)].Address
-		return &chainOp{ev: trace.Ev{"e": "SetBeneficiary", "a": w.name(a), "end": w.ename(c.net.Devs[e].Address), "ben": w.ename(b)},
-			from: e, t: c.mkTx(e, 0, "setBeneficiary", a, b)}
+		b := c.anySender().addr
+		return clause{ev: map[string]any{"e": "SetBeneficiary", "a": w.name(a), "ben": w.ename(b)}, data: c.stakerData("setBeneficiary", a, b), value: new(big.Int)}, endorserOf(a)
 	case x < 80:
 		a := pickVal(validation.StatusActive, validation.StatusQueued)
 		amt := 1 + uint64(w.rng.Int63n(int64(3*small)))
 		m := []uint8{100, 200, 150, 255}[w.pick(4)]
-		return &chainOp{ev: trace.Ev{"e": "AddDelegation", "a": w.name(a), "s": amt, "m": m},
-			from: c.deleg, value: amt, isDel: true, t: c.mkTx(c.deleg, amt, "addDelegation", a, m)}
+		ev := map[string]any{"e": "AddDelegation", "a": w.name(a), "s": amt, "m": m}
+		return clause{ev: ev, data: c.stakerData("addDelegation", a, m), value: stakeWei(amt, ev), isDel: true}, delegSender()
 	case x < 88:
-		if w.ndel == 0 {
-			return nil
-		}
-		id := 1 + w.pick(w.ndel)
-		return &chainOp{ev: trace.Ev{"e": "SignalDelegationExit", "d": id},
-			from: c.deleg, t: c.mkTx(c.deleg, 0, "signalDelegationExit", big.NewInt(int64(id)))}
+		id := 1 + w.pick(w.ndel+1)
+		return clause{ev: map[string]any{"e": "SignalDelegationExit", "d": id}, data: c.stakerData("signalDelegationExit", big.NewInt(int64(id))), value: new(big.Int)}, delegSender()
 	default:
-		if w.ndel == 0 {
-			return nil
-		}
-		id := 1 + w.pick(w.ndel)
-		return &chainOp{ev: trace.Ev{"e": "WithdrawDelegation", "d": id},
-			from: c.deleg, pays: true, t: c.mkTx(c.deleg, 0, "withdrawDelegation", big.NewInt(int64(id)))}
+		id := 1 + w.pick(w.ndel+1)
+		return clause{ev: map[string]any{"e": "WithdrawDelegation", "d": id}, data: c.stakerData("withdrawDelegation", big.NewInt(int64(id))), value: new(big.Int), pays: true}, delegSender()
 	}
 }
 
-func runChain(p preset, seed int64, hist, blocks int) *world {
-	if p.TP != 0 || p.Hayabusa != 0 {
-		fail("chain mode needs a preset with TP = 0 and HAYABUSA = 0 (the simulator's genesis)")
+// proxyMode reads how a proxy contract reacts to receiving VET (and which validator it would re-enter for)
+func (c *chainWorld) proxyMode(st *state.State, p thor.Address) (string, string) {
+	m, err := st.GetStorage(p, thor.Bytes32{})
+	must(err)
+	v, err := st.GetStorage(p, thor.BytesToBytes32([]byte{1}))
+	must(err)
+	mode := "accept"
+	switch m[31] {
+	case 1:
+		mode = "revert"
+	case 2:
+		mode = "reenter"
+	}
+	return mode, c.name(thor.BytesToAddress(v[12:]))
+}
+
+// runChain: poa = false: the chain starts in PoS (genesis stakers, activated by the genesis builder);
+// poa = true: the chain starts in PoA with three authorities and no stakers, HAYABUSA at the preset's height, the
+// authorities queue through real addValidation transactions during the transition period (native_addValidation's
+// authority / endorser rule) and the real SyncPOS switches to PoS at a transition block once 2/3 of the proposers queued.
+func runChain(p preset, seed int64, hist, blocks int, poa bool) *world {
+	if !poa && (p.TP != 0 || p.Hayabusa != 0) {
+		fail("chain mode with genesis stakers needs a preset with TP = 0 and HAYABUSA = 0")
 	}
 	const nVal, nAcct = 3, 9
 	mbp := uint64(4)
 	// the genesis builder stakes the genesis validators with thor.HighStakingPeriod() as configured by the simulator's
 	// genesis (StakingPeriod); the simulator sets the process-global thor config, so the preset is re-applied afterwards
 	net := sim.NewNet(sim.Options{Validators: nVal, Nodes: 1, PoS: true, EpochLength: p.E, MBP: mbp, ExtraAccts: nAcct + 1 - nVal,
-		SkipLogs: true, StakingPeriod: p.HighP})
+		SkipLogs: true, StakingPeriod: p.HighP, NoGenesisStakers: poa, HayabusaTP: p.TP, Hayabusa: p.Hayabusa})
 	defer net.Close()
 	applyConfig(p)
+	mode := "chain"
+	if poa {
+		mode = "chainpoa"
+	}
 	w := &world{p: p, rng: rand.New(rand.NewSource(seed)), names: map[thor.Address]string{}, enames: map[thor.Address]string{},
 		endOf: map[thor.Address]thor.Address{}, prevStatus: map[thor.Address]uint8{}, prevExitB: map[thor.Address]bool{}}
 	w.names[thor.Address{}] = zeroName
 	w.enames[thor.Address{}] = zeroName
-	w.stat = runStat{Hist: hist, Seed: seed, Mode: "chain", RevertKinds: map[string]int{}}
-	c := &chainWorld{world: w, net: net, parent: net.B0, nVal: nVal, nAcct: nAcct, deleg: nAcct, tag: net.God.Repo.ChainTag(),
+	w.stat = runStat{Hist: hist, Seed: seed, Mode: mode, RevertKinds: map[string]int{}}
+	c := &chainWorld{world: w, net: net, parent: net.B0, nVal: nVal, nAcct: nAcct, tag: net.God.Repo.ChainTag(),
 		nonce: uint64(seed) << 20, offPrev: map[thor.Address]int64{}}
-	var vn []string
-	for i := 0; i < nAcct; i++ {
-		a := net.Devs[i].Address
-		w.vals = append(w.vals, a)
-		w.names[a] = fmt.Sprintf("v%d", i+1)
-		w.enames[a] = fmt.Sprintf("e%d", i+1)
-		vn = append(vn, w.names[a])
+	ev, ok := builtin.Staker.Events().EventByName("DelegationAdded")
+	if !ok {
+		fail("no DelegationAdded event")
 	}
-	w.enames[net.Devs[c.deleg].Address] = "delegator"
+	c.delEvent = ev.ID()
+	var vn []string
+	for i := 0; i < nAcct+1; i++ {
+		a := net.Devs[i].Address
+		w.enames[a] = fmt.Sprintf("e%d", i+1)
+		c.eoas = append(c.eoas, sender{name: w.enames[a], addr: a, key: i})
+		if i < nAcct {
+			w.vals = append(w.vals, a)
+			w.names[a] = fmt.Sprintf("v%d", i+1)
+			vn = append(vn, w.names[a])
+		}
+	}
 	w.st = c.stateOf(net.B0)
 	w.block = 0
-	// the genesis block: validations of the genesis stakers, added by the genesis builder with the minimum stake
-	w.evs = append(w.evs, trace.Ev{"e": "Reset", "vals": vn, "mbp": mbp, "block": 0, "cfgname": p.Name, "seed": seed, "hist": hist, "mode": "chain"})
-	for i := 0; i < nVal; i++ {
-		ev := trace.Ev{"e": "AddValidation", "a": w.names[net.Devs[i].Address], "end": w.enames[net.Devs[i].Address], "p": p.HighP,
-			"s": p.MinStake, "ok": true, "msg": "", "amt": 0}
-		w.evs = append(w.evs, ev)
-		w.stat.Validations++
+	w.evs = append(w.evs, trace.Ev{"e": "Reset", "vals": vn, "mbp": mbp, "block": 0, "cfgname": p.Name, "seed": seed, "hist": hist, "mode": mode})
+	if !poa {
+		// the genesis block: validations of the genesis stakers, added by the genesis builder with the minimum stake ...
+		for i := 0; i < nVal; i++ {
+			w.evs = append(w.evs, trace.Ev{"e": "AddValidation", "a": w.names[net.Devs[i].Address], "end": w.enames[net.Devs[i].Address], "p": p.HighP,
+				"s": p.MinStake, "ok": true, "msg": "", "amt": 0})
+			w.stat.Validations++
+		}
+		// ... and activated by a direct Staker.Housekeep(0) of the genesis builder
+		w.evs = append(w.evs, trace.Ev{"e": "GenesisHousekeep", "ok": true, "msg": "", "amt": 0, "post": w.snapshot()})
+	} else {
+		w.evs[len(w.evs)-1]["post"] = w.snapshot()
 	}
-	// ... and activated by a direct Staker.Housekeep(0) of the genesis builder
-	w.evs = append(w.evs, trace.Ev{"e": "GenesisHousekeep", "ok": true, "msg": "", "amt": 0, "post": w.snapshot()})
 	w.stat.Events = len(w.evs)
 
-	// block 1: the executor names the account that plays the delegator contract
+	// block 1: three proxy contracts are created (two contract endorsers, the delegator contract)
+	initCode := proxyInit()
+	deploy := c.sign(nAcct, tx.NewClause(nil).WithData(initCode), tx.NewClause(nil).WithData(initCode), tx.NewClause(nil).WithData(initCode))
+	for i, n := range []string{"c1", "c2", "delegator"} {
+		a := thor.CreateContractAddress(deploy.ID(), uint32(i), 0)
+		w.enames[a] = n
+		sd := sender{name: n, addr: a, key: 3 + i, proxy: true}
+		if n == "delegator" {
+			sd.key = nAcct
+			c.deleg = sd
+		} else {
+			c.proxies = append(c.proxies, sd)
+		}
+	}
+	// block 2: the executor names the delegator contract
 	setM, ok := builtin.Params.ABI.MethodByName("set")
 	if !ok {
 		fail("params.set not found")
 	}
-	data, err := setM.EncodeInput(thor.KeyDelegatorContractAddress, new(big.Int).SetBytes(net.Devs[c.deleg].Address.Bytes()))
-	must(err)
 	pa := builtin.Params.Address
-	c.nonce++
-	setTx := tx.MustSign(tx.NewBuilder(tx.TypeDynamicFee).ChainTag(c.tag).BlockRef(tx.NewBlockRef(0)).Expiration(1000).Gas(200_000).Nonce(c.nonce).
-		Clause(tx.NewClause(&pa).WithData(data)).MaxFeePerGas(new(big.Int).Mul(big.NewInt(thor.InitialBaseFee), big.NewInt(100))).
-		MaxPriorityFeePerGas(big.NewInt(1000)).Build(), net.Devs[0].PrivateKey)
+	paramTx := func(key thor.Bytes32, v *big.Int) *tx.Transaction {
+		data, err := setM.EncodeInput(key, v)
+		must(err)
+		return c.sign(0, tx.NewClause(&pa).WithData(data))
+	}
 
 	for b := 1; b <= blocks; b++ {
 		pre := w.st
-		var op *chainOp
-		var t *tx.Transaction
-		if b == 1 {
-			t = setTx
-		} else if w.chance(70) {
-			active, _ := w.stk().IsPoSActive()
-			if op = c.randomOp(active); op != nil {
-				t = op.t
+		var txs []*chainTx
+		switch {
+		case b == 1:
+			txs = append(txs, &chainTx{t: deploy, silent: true, sw: -1})
+		case b == 2:
+			txs = append(txs, &chainTx{t: paramTx(thor.KeyDelegatorContractAddress, new(big.Int).SetBytes(c.deleg.addr.Bytes())), silent: true, sw: -1})
+		case w.block+1 <= p.Hayabusa:
+			// before the fork the Staker contract does not exist yet
+		case b >= 3 && b <= 5 && !poa:
+			// a contract endorser queues a validation, is told to re-enter, and withdraws it: the classic withdraw-twice path
+			px, v := c.proxies[0], w.vals[nAcct-1]
+			switch b {
+			case 3:
+				ev := map[string]any{"e": "AddValidation", "a": w.name(v), "p": p.LowP, "s": p.MinStake, "auth": zeroName, "frac": false}
+				txs = append(txs, c.build(px, []clause{{ev: ev, data: c.stakerData("addValidation", v, p.LowP), value: c.wei(p.MinStake)}}))
+			case 4:
+				to := px.addr
+				txs = append(txs, &chainTx{t: c.sign(px.key, tx.NewClause(&to).WithData(proxySetMode(2, v))), silent: true, sw: -1})
+			case 5:
+				mode, rv := c.proxyMode(pre, px.addr)
+				ev := map[string]any{"e": "WithdrawStake", "a": w.name(v), "rcv": mode, "rv": rv}
+				txs = append(txs, c.build(px, []clause{{ev: ev, data: c.stakerData("withdrawStake", v), value: new(big.Int), pays: true}}))
+			}
+		case poa && w.block+1 > p.Hayabusa && int(w.block+1-p.Hayabusa) <= nVal:
+			// the transition period: the authorities queue (their own endorser must send the transaction); before each,
+			// somebody else tries for them and a non-authority tries for itself - both must be refused
+			i := int(w.block+1-p.Hayabusa) - 1
+			v := w.vals[i]
+			auth := func(a thor.Address) string {
+				if listed, endorsor, _, _, err := builtin.Authority.Native(w.st).Get(a); err == nil && listed {
+					return w.ename(endorsor)
+				}
+				return zeroName
+			}
+			mk := func(from sender, a thor.Address) *chainTx {
+				ev := map[string]any{"e": "AddValidation", "a": w.name(a), "p": p.LowP, "s": p.MinStake + uint64(i), "auth": auth(a), "frac": false}
+				return c.build(from, []clause{{ev: ev, data: c.stakerData("addValidation", a, p.LowP), value: c.wei(p.MinStake + uint64(i))}})
+			}
+			txs = append(txs, mk(c.eoas[(i+1)%nVal], v), mk(c.eoas[nVal+i], w.vals[nVal+i]), mk(c.eoas[i], v))
+		case poa && w.prevActive == 0 && w.stat.PosStarts == 0 && w.block+1 <= p.Hayabusa+p.TP+4*p.E:
+			// wait for the switch (nobody leaves the queue before the first transition blocks)
+		case w.chance(9):
+			// a proxy changes its behaviour on receiving VET (alone in its block: later withdraws see a settled mode)
+			px := append(append([]sender{}, c.proxies...), c.deleg)[w.pick(len(c.proxies)+1)]
+			mode := byte(w.pick(3))
+			if px.name == "delegator" && mode == 2 {
+				mode = 1
+			}
+			v := w.vals[w.pick(len(w.vals))]
+			for _, a := range w.vals { // preferably a validator this proxy endorses
+				if x, err := w.stk().GetValidation(a); err == nil && x != nil && x.Endorser == px.addr && w.chance(60) {
+					v = a
+				}
+			}
+			to := px.addr
+			txs = append(txs, &chainTx{t: c.sign(px.key, tx.NewClause(&to).WithData(proxySetMode(mode, v))), silent: true, sw: -1})
+		default:
+			if w.chance(6) || (c.switches != 0 && w.chance(40)) {
+				v := int64(w.pick(4))
+				if c.switches != 0 && w.chance(70) {
+					v = 0
+				}
+				txs = append(txs, &chainTx{t: paramTx(thor.KeyStakerSwitches, big.NewInt(v)), sw: v})
+			}
+			n := []int{0, 1, 1, 1, 2, 2, 3}[w.pick(7)]
+			usedProxy := map[string]bool{}
+			for i := 0; i < n; i++ {
+				cl, from := c.randomClause()
+				cls := []clause{cl}
+				if w.chance(22) { // a second clause in the same transaction, same sender
+					cl2, _ := c.randomClause()
+					cls = append(cls, cl2)
+				}
+				// at most one paying clause per proxy and block: its receive mode is read from the pre-state
+				skip := false
+				for k := range cls {
+					if cls[k].pays && from.proxy {
+						if usedProxy[from.name] {
+							skip = true
+						}
+						usedProxy[from.name] = true
+						cls[k].ev["rcv"], cls[k].ev["rv"] = c.proxyMode(pre, from.addr)
+					}
+				}
+				if skip {
+					continue
+				}
+				txs = append(txs, c.build(from, cls))
 			}
 		}
-		blk := c.mint(t)
+		var raw []*tx.Transaction
+		for _, t := range txs {
+			raw = append(raw, t.t)
+		}
+		blk := c.mint(raw)
 		c.parent = blk
 		w.st = c.stateOf(blk)
 		w.block = blk.Header().Number()
 		w.stat.Blocks++
-		evs := []trace.Ev{{"e": "Block", "n": w.block, "ok": true, "msg": "", "amt": w.block}}
+		// the long-lived node (real consensus.Process with its caches, real bft engine) imports the packer's block
+		cons := "ok"
+		if _, err := net.Nodes[0].Deliver(blk); err != nil {
+			cons = err.Error()
+		}
+		evs := []trace.Ev{{"e": "Block", "n": w.block, "ok": true, "msg": "", "amt": w.block, "cons": cons}}
 		// who was reported online / offline by the scheduler of this block
 		for _, a := range w.vals {
 			v, err := w.stk().GetValidation(a)
@@ -307,52 +481,70 @@ func runChain(p preset, seed int64, hist, blocks int) *world {
 			}
 			c.offPrev[a] = off
 		}
-		if op != nil {
-			rcs, err := net.God.Repo.GetBlockReceipts(blk.Header().ID())
-			must(err)
-			if len(rcs) != 1 {
-				fail("chain: expected one receipt")
-			}
-			ok := !rcs[0].Reverted
-			before, after := c.vetOf(pre, op.from), c.vetOf(w.st, op.from)
-			delta := new(big.Int).Sub(after, before)
-			amt := uint64(0)
-			switch {
-			case !ok:
-				if delta.Sign() != 0 {
-					op.ev["msg"], op.ev["bad"] = "!error: reverted transaction moved VET", true
+		rcs, err := net.God.Repo.GetBlockReceipts(blk.Header().ID())
+		must(err)
+		if len(rcs) != len(txs) {
+			fail("chain: receipts do not match the transactions")
+		}
+		for i, t := range txs {
+			rc := rcs[i]
+			if t.silent {
+				if rc.Reverted {
+					fail("chain: a set-up transaction reverted in block", w.block)
 				}
+				continue
+			}
+			if t.sw >= 0 {
+				if rc.Reverted {
+					fail("chain: the executor could not set the switches")
+				}
+				c.switches = t.sw
+				evs = append(evs, trace.Ev{"e": "SetSwitches", "v": t.sw, "ok": true, "msg": "", "amt": 0})
+				continue
+			}
+			ev := trace.Ev{"e": "ChainTx", "from": t.from.name, "ok": !rc.Reverted, "msg": "", "amt": 0}
+			var cs []any
+			for j, cl := range t.clauses {
+				ce := cl.ev
+				ce["paid"], ce["id"] = 0, 0
+				if !rc.Reverted {
+					paid := new(big.Int)
+					for _, tr := range rc.Outputs[j].Transfers {
+						if tr.Sender == builtin.Staker.Address && tr.Recipient == t.from.addr {
+							paid.Add(paid, tr.Amount)
+						}
+					}
+					u := w.weiUnits(paid)
+					if u < 0 {
+						ev["bad"], ev["msg"] = true, "!error: a clause paid an amount that is not a whole number of units"
+						u = 0
+					}
+					ce["paid"] = u
+					if cl.pays {
+						if u > 0 {
+							w.stat.Withdrawals++
+						} else {
+							w.stat.ZeroWithdraw++
+						}
+					}
+					for _, lg := range rc.Outputs[j].Events {
+						if lg.Address == builtin.Staker.Address && len(lg.Topics) == 3 && lg.Topics[0] == c.delEvent {
+							ce["id"] = new(big.Int).SetBytes(lg.Topics[2][:]).Uint64()
+							w.ndel++
+							w.stat.Delegations++
+						}
+					}
+					if ce["e"] == "AddValidation" {
+						w.stat.Validations++
+					}
+				}
+				cs = append(cs, ce)
+			}
+			if rc.Reverted {
 				w.stat.Reverts++
-			case op.pays:
-				u := w.weiUnits(delta)
-				if u < 0 {
-					op.ev["msg"], op.ev["bad"] = "!error: a withdraw did not pay a whole non-negative number of units", true
-				} else {
-					amt = uint64(u)
-				}
-				if amt > 0 {
-					w.stat.Withdrawals++
-				} else {
-					w.stat.ZeroWithdraw++
-				}
-			default:
-				if delta.Cmp(new(big.Int).Neg(w.wei(op.value))) != 0 {
-					op.ev["msg"], op.ev["bad"] = fmt.Sprintf("!error: sender balance changed by %v wei, expected -%v", delta, w.wei(op.value)), true
-				}
-				if op.isDel {
-					w.ndel++
-					w.stat.Delegations++
-					amt = uint64(w.ndel)
-				}
-				if op.ev["e"] == "AddValidation" {
-					w.stat.Validations++
-				}
 			}
-			if _, has := op.ev["msg"]; !has {
-				op.ev["msg"] = ""
-			}
-			op.ev["ok"], op.ev["amt"], op.ev["chain"] = ok, amt, true
-			evs = append(evs, op.ev)
+			ev["cs"] = cs
+			evs = append(evs, ev)
 		}
 		w.lastWasBlock = true
 		evs[len(evs)-1]["post"] = w.snapshot()
